@@ -1,14 +1,30 @@
-"""C15: dump output honours the formatting options (plumbing / normalisation / funnel clauses)."""
+"""C15: dump output honours the formatting options (plumbing / normalisation / funnel clauses).
+
+As in rules_emit, the clauses are semantic facts: option guards are checked by *running* the initialiser abstractly on probe
+values and looking at what ends up in the attribute; "x is encoded before it is written", "the default break is
+best_line_break", "StringIO iff no encoding" are reaching-definition facts on the CFG restricted to the edges that are
+feasible in a scenario (rules_emit.Flow); guards are evaluated (rules_emit.Scenario), never compared as text."""
 import ast
 
 from . import astutil as A
 from . import charworld as CW
 from . import rules_emit as RE
 from .cfg import CFG, own_exprs
+from .rules_emit import Flow, Scenario
 from .srcmodel import AnalysisError, ClassInfo, FuncInfo, norm, walk_function
 
 DUMP_API = ['emit', 'serialize_all', 'dump_all']
 WRAPPERS = {'serialize': 'serialize_all', 'dump': 'dump_all', 'safe_dump_all': 'dump_all', 'safe_dump': 'dump_all'}
+
+
+def _dumper_call(f):
+    """the instantiation of the dumper class in an API function: a call of its third parameter (subject, stream, Dumper)."""
+    if len(f.params) < 3:
+        raise AnalysisError('yaml.%s: expected (subject, stream, Dumper, options...)' % f.name)
+    calls = [c for c in A.func_calls(f.node) if isinstance(c.func, ast.Name) and c.func.id == f.params[2]]
+    if len(calls) != 1:
+        raise AnalysisError('yaml.%s: Dumper instantiation not found' % f.name)
+    return calls[0]
 
 
 def r_option_plumbing(ctx, repo):
@@ -20,11 +36,8 @@ def r_option_plumbing(ctx, repo):
         f = init.functions.get(name)
         if f is None:
             raise AnalysisError('yaml.%s has vanished' % name)
-        calls = [c for c in A.func_calls(f.node) if isinstance(c.func, ast.Name) and c.func.id == 'Dumper']
-        if len(calls) != 1:
-            raise AnalysisError('yaml.%s: Dumper instantiation not found' % name)
-        c = calls[0]
-        opts = [p for p in f.params if p not in ('events', 'nodes', 'documents', 'stream', 'Dumper')]
+        c = _dumper_call(f)
+        opts = list(f.params[3:]) + [a.arg for a in f.node.args.kwonlyargs]
         passed = {k.arg: k.value for k in c.keywords}
         for o in opts:
             v = passed.get(o)
@@ -45,11 +58,12 @@ def r_option_plumbing(ctx, repo):
         f = init.functions.get(name)
         if f is None:
             raise AnalysisError('yaml.%s has vanished' % name)
+        kw = f.node.args.kwarg.arg if f.node.args.kwarg is not None else None
         rets = [n for n in walk_function(f.node) if isinstance(n, ast.Return)]
-        ok = len(rets) == 1 and isinstance(rets[0].value, ast.Call) and norm(rets[0].value.func) == target \
-            and any(k.arg is None and norm(k.value) == 'kwds' for k in rets[0].value.keywords)
+        ok = kw is not None and len(rets) == 1 and isinstance(rets[0].value, ast.Call) and norm(rets[0].value.func) == target \
+            and any(k.arg is None and isinstance(k.value, ast.Name) and k.value.id == kw for k in rets[0].value.keywords)
         if ok:
-            rule.ok(f.loc(), 'yaml.%s forwards **kwds to %s' % (name, target))
+            rule.ok(f.loc(), 'yaml.%s forwards its keyword options to %s' % (name, target))
         else:
             rule.fail('%s|kwds' % f.qualname, f.module.rel, f.node.lineno, f.qualname, 'def %s' % name,
                       'yaml.%s does not forward its keyword options unchanged to %s' % (name, target))
@@ -96,6 +110,8 @@ def r_option_plumbing(ctx, repo):
     for q in ('emitter.Emitter', 'serializer.Serializer', 'representer.BaseRepresenter', '_yaml.CEmitter'):
         K = repo.cls(q)
         f = K.methods.get('__init__')
+        if f is None:
+            raise AnalysisError('%s has no __init__' % q)
         reads = {n.id for n in walk_function(f.node) if isinstance(n, ast.Name) and isinstance(n.ctx, ast.Load)}
         for p in f.params[1:]:
             if p in reads:
@@ -114,190 +130,445 @@ def r_option_plumbing(ctx, repo):
                         else:
                             rule.fail('%s|store|%s|%s' % (f.qualname, a, p), f.module.rel, n.lineno, f.qualname, norm(n),
                                       '%s.__init__ stores the parameter %s in the attribute %s' % (K.name, p, a))
-    rule.require_min(120, 'keyword bindings')
+    rule.require_min(75, 'keyword bindings')
     return rule
+
+
+class _ValueInterp(CW.Interp):
+    """the constant evaluator of sa.charworld, plus min / max / abs / int / bool on constants (option clamps)."""
+
+    def ev_call(self, e, st, depth):
+        fn = e.func
+        if isinstance(fn, ast.Name) and fn.id in ('min', 'max', 'abs', 'int', 'bool', 'str') and e.args and not e.keywords:
+            alts = [([], st)]
+            for a in e.args:
+                nxt = []
+                for vals, s in alts:
+                    for v, s2 in self.ev(a, s, depth):
+                        nxt.append((vals + [v], s2))
+                alts = nxt
+            out = []
+            for vals, s in alts:
+                if all(CW.is_const(v) for v in vals):
+                    try:
+                        out.append((CW.C({'min': min, 'max': max, 'abs': abs, 'int': int, 'bool': bool, 'str': str}[fn.id](
+                            *[v[1] for v in vals])), s))
+                        continue
+                    except Exception:
+                        pass
+                out.append((CW.UNK, s))
+            return out
+        return super().ev_call(e, st, depth)
+
+
+def _self_attrs_as_locals(stmts):
+    """copy of a statement list in which `self.x` is the local `__self_x` (so that the constant evaluator, which tracks
+    locals, tracks the attributes the initialiser sets)."""
+    def fn(n):
+        if isinstance(n, ast.Attribute) and isinstance(n.value, ast.Name) and n.value.id == 'self':
+            return ast.copy_location(ast.Name(id='__self_' + n.attr, ctx=n.ctx), n)
+        return None
+    return [RE.rebuild(s, fn) for s in stmts]
+
+
+OPTION_SPEC = {
+    # attribute: (parameter, default, admissible(value, best_indent) -> bool, what)
+    'best_indent': ('indent', 2, lambda v, bi: isinstance(v, int) and 1 < v < 10, '1 < indent < 10'),
+    'best_width': ('width', 80, lambda v, bi: isinstance(v, int) and v > bi * 2, 'width > 2 * best_indent'),
+    'best_line_break': ('line_break', '\n', lambda v, bi: v in ('\r', '\n', '\r\n'), 'line_break in {CR, LF, CRLF}'),
+}
 
 
 def r_option_normalised(ctx, repo):
-    rule = ctx.rule('R-OPTION-NORMALISED', 'best_indent / best_width / best_line_break only ever receive their defaults or a value '
-                                           'confined by a guard (1 < indent < 10, width > 2*indent, line_break in {CR, LF, CRLF})')
+    rule = ctx.rule('R-OPTION-NORMALISED', 'best_indent / best_width / best_line_break end up as the requested value when it is '
+                                           'admissible (1 < indent < 10, width > 2*indent, line_break in {CR, LF, CRLF}) and as '
+                                           'the default (2, 80, LF) otherwise: the initialiser is evaluated on probe values')
     E = repo.cls('emitter.Emitter')
-    spec = {
-        'best_indent': ('indent', lambda v: v == 2),
-        'best_width': ('width', lambda v: v == 80),
-        'best_line_break': ('line_break', lambda v: v == '\n'),
-    }
-    seen = 0
-    for f in E.methods.values():
-        for n in walk_function(f.node):
-            if not (isinstance(n, ast.Assign) and any(isinstance(t, ast.Attribute) and norm(t.value) == 'self'
-                                                      and t.attr in spec for t in n.targets)):
+    f = E.methods.get('__init__')
+    if f is None:
+        raise AnalysisError('Emitter.__init__ has vanished')
+    for attr, (param, default, adm, what) in OPTION_SPEC.items():
+        if param not in f.params:
+            raise AnalysisError('Emitter.__init__ has no parameter %s' % param)
+    sites = {}
+    for g in E.methods.values():
+        for n in walk_function(g.node):
+            if isinstance(n, (ast.Assign, ast.AugAssign, ast.AnnAssign)):
+                targets = n.targets if isinstance(n, ast.Assign) else [n.target]
+                for t in targets:
+                    for x in ast.walk(t):
+                        if isinstance(x, ast.Attribute) and norm(x.value) == 'self' and x.attr in OPTION_SPEC \
+                                and isinstance(x.ctx, ast.Store):
+                            sites.setdefault(x.attr, []).append((g, n))
+    for attr in OPTION_SPEC:
+        if not any(g is f for g, n in sites.get(attr, [])):
+            raise AnalysisError('R-OPTION-NORMALISED: Emitter.__init__ does not assign self.%s' % attr)
+        for g, n in sites[attr]:
+            if g is f:
                 continue
-            attr = [t.attr for t in n.targets if isinstance(t, ast.Attribute) and t.attr in spec][0]
-            seen += 1
-            param, is_default = spec[attr]
-            cv = A.const_value(n.value)
-            if cv is not NotImplemented and is_default(cv):
-                rule.ok(f.loc(n), 'self.%s = %r (default)' % (attr, cv))
+            cv = A.const_value(n.value) if isinstance(n, ast.Assign) else NotImplemented
+            if cv is not NotImplemented and cv == OPTION_SPEC[attr][1]:
+                rule.ok(g.loc(n), 'self.%s = %r (default) in %s' % (attr, cv, g.name))
+            else:
+                rule.fail('%s|%s' % (g.qualname, attr), g.module.rel, n.lineno, g.qualname, norm(n),
+                          'self.%s can receive an out-of-range value (assigned outside the initialiser, without its guard): '
+                          'indentation / folding / line breaks of the output no longer honour the documented limits' % attr)
+    body = _self_attrs_as_locals(f.node.body)
+    indents = [None, 0, 1, 2, 5, 9, 10, 11, -3, 100]
+    widths = [None, 0, 1, 3, 4, 5, 10, 11, 18, 19, 20, 21, 80, 1000]
+    breaks = [None, '\r', '\n', '\r\n', '\n\r', '', ' ', '\x85', '\u2028', 'x', '\n\n']
+    runs = [(i, w, None) for i in indents for w in widths] + [(None, None, b) for b in breaks]
+    bad = {}
+    for i, w, b in runs:
+        given = {'indent': i, 'width': w, 'line_break': b}
+        it = _ValueInterp(repo, None, '\uffff', '<none>', None)
+        st = CW.State({p: CW.C(v) for p, v in given.items()})
+        try:
+            ends = it.run_block(body, st, 0)
+        except CW.Budget:
+            raise AnalysisError('Emitter.__init__: abstract evaluation exceeded its budget')
+        ends = [(k, v, s) for k, v, s in ends if k != 'raise']
+        if not ends:
+            raise AnalysisError('Emitter.__init__: no normal completion for indent=%r width=%r line_break=%r' % (i, w, b))
+        exp_indent = i if OPTION_SPEC['best_indent'][2](i, None) else 2
+        expected = {'best_indent': exp_indent,
+                    'best_width': w if OPTION_SPEC['best_width'][2](w, exp_indent) else 80,
+                    'best_line_break': b if OPTION_SPEC['best_line_break'][2](b, None) else '\n'}
+        for attr, exp in expected.items():
+            if attr in bad:
                 continue
-            conds = RE._path_condition(n, f.node)
-            ok = False
-            why = ''
-            if isinstance(n.value, ast.Name) and n.value.id == param:
-                # evaluate the guard on probe values: it must be false for every value outside the admissible set
-                if attr == 'best_indent':
-                    probes = [None, 0, 1, 2, 5, 9, 10, 11, -3, 100]
-                    admissible = lambda v: v is not None and 1 < v < 10
-                    env = lambda v: {param: v}
-                elif attr == 'best_width':
-                    probes = [(None, 2), (0, 2), (4, 2), (5, 2), (18, 9), (19, 9), (80, 4), (3, 2), (1, 2)]
-                    admissible = lambda v: v[0] is not None and v[0] > v[1] * 2
-                    env = None
-                else:
-                    probes = [None, '\r', '\n', '\r\n', '\n\r', '', ' ', '\x85', '\u2028', 'x', '\n\n']
-                    admissible = lambda v: v in ('\r', '\n', '\r\n')
-                    env = lambda v: {param: v}
-                bad = None
-                undecided = False
-                for pv in probes:
-                    if attr == 'best_width':
-                        src_env = {param: pv[0]}
-                        sub = {'self.best_indent': repr(pv[1])}
-                    else:
-                        src_env = env(pv)
-                        sub = {}
-                    val = True
-                    for t, pol in conds:
-                        src = norm(t)
-                        for k, r in sub.items():
-                            src = src.replace(k, r)
-                        e2 = ast.parse(src, mode='eval').body
-                        r = CW.eval_cond(repo, e2, src_env)
-                        if r is None:
-                            undecided = True
-                            val = None
-                            break
-                        if r != pol:
-                            val = False
-                            break
-                    if val is True and not admissible(pv):
-                        bad = pv
-                    if val is None:
-                        break
-                if undecided:
-                    why = 'the guard of this assignment could not be evaluated'
-                elif bad is not None:
-                    why = 'the guard lets the value %r through' % (bad,)
-                else:
-                    ok = True
-            else:
-                why = 'assigned from %s, which is neither the default nor the guarded option' % norm(n.value)
-            if ok:
-                rule.ok(f.loc(n), 'self.%s = %s under a confining guard' % (attr, param))
-            else:
-                rule.fail('%s|%s' % (f.qualname, attr), f.module.rel, n.lineno, f.qualname, norm(n),
-                          'self.%s can receive an out-of-range value (%s): indentation / folding / line breaks of the output '
-                          'no longer honour the documented limits' % (attr, why))
-    if seen < 6:
-        raise AnalysisError('R-OPTION-NORMALISED: only %d assignments of best_* found (6 confirmed)' % seen)
+            for k, v, s in ends:
+                got = s.env.get('__self_' + attr, CW.UNK)
+                if not CW.is_const(got):
+                    bad[attr] = ('the value stored for %s=%r could not be determined'
+                                 % (OPTION_SPEC[attr][0], given[OPTION_SPEC[attr][0]]), given)
+                elif got[1] != exp or type(got[1]) is not type(exp):
+                    bad[attr] = ('%s=%r%s is stored as %r instead of %r'
+                                 % (OPTION_SPEC[attr][0], given[OPTION_SPEC[attr][0]],
+                                    (' with indent=%r' % i) if attr == 'best_width' else '', got[1], exp), given)
+    for attr, (param, default, adm, what) in OPTION_SPEC.items():
+        g, n = [x for x in sites[attr] if x[0] is f][-1]
+        if attr not in bad:
+            rule.ok(f.loc(n), 'self.%s is %s when %s, else %r (%d probe runs)' % (attr, param, what, default, len(runs)))
+        else:
+            rule.fail('%s|%s' % (f.qualname, attr), f.module.rel, n.lineno, f.qualname, norm(n),
+                      'self.%s can receive an out-of-range value (%s; admissible: %s, default %r): indentation / folding / line '
+                      'breaks of the output no longer honour the documented limits' % (attr, bad[attr][0], what, default))
     return rule
 
 
+def _origins(flow, node, expr, _seen=None):
+    """where the value of `expr` at CFG node `node` comes from, following local assignments and .encode(): a set of
+    ('const', s) | ('charvar', name) | ('attr', path) | ('param', name) | ('other', text)."""
+    _seen = _seen if _seen is not None else set()
+    if isinstance(expr, ast.Constant):
+        return {('const', expr.value)}
+    if isinstance(expr, ast.Name):
+        out = set()
+        for d in flow.defs(node, expr.id):
+            if d == Flow.ENTRY:
+                out.add(('param', expr.id))
+                continue
+            if (d, expr.id) in _seen:
+                continue
+            _seen.add((d, expr.id))
+            if d.kind == 'for':
+                out.add(('charvar', expr.id))
+                continue
+            v = Flow.value_of(d)
+            if v is None:
+                out.add(('other', norm(d.ast)[:40]))
+            elif isinstance(v, ast.Subscript) and not isinstance(v.slice, ast.Slice):
+                out.add(('charvar', expr.id))
+            else:
+                out |= _origins(flow, d, v, _seen)
+        return out
+    if RE._is_encode_call(expr):
+        return _origins(flow, node, expr.func.value, _seen)
+    if isinstance(expr, ast.Attribute):
+        return {('attr', norm(expr))}
+    if isinstance(expr, ast.BinOp):
+        return _origins(flow, node, expr.left, _seen) | _origins(flow, node, expr.right, _seen)
+    if isinstance(expr, ast.IfExp):
+        return _origins(flow, node, expr.body, _seen) | _origins(flow, node, expr.orelse, _seen)
+    if isinstance(expr, ast.JoinedStr):
+        out = set()
+        for v in expr.values:
+            out |= _origins(flow, node, v.value if isinstance(v, ast.FormattedValue) else v, _seen)
+        return out
+    return {('other', norm(expr)[:40])}
+
+
+def _has_break(s):
+    return isinstance(s, str) and bool(set(s) & set('\r\n'))
+
+
 def r_break_funnel(ctx, repo):
-    rule = ctx.rule('R-BREAK-FUNNEL', 'no CR/LF reaches stream.write except through write_line_break, whose explicit argument is '
-                                      'never "\\n" (LF in the text is written as the requested line_break)')
+    rule = ctx.rule('R-BREAK-FUNNEL', 'no CR/LF reaches stream.write except as best_line_break (the default of write_line_break) or '
+                                      'as a break character of the text other than LF (LF in the text is written as the requested '
+                                      'line_break)')
     E = repo.cls('emitter.Emitter')
     wlb = E.methods.get('write_line_break')
     if wlb is None:
         raise AnalysisError('Emitter.write_line_break has vanished')
-    # default of write_line_break is best_line_break
-    txt = norm(wlb.node)
-    if 'if data is None' in txt and 'data = self.best_line_break' in txt:
+    if len(wlb.params) < 2:
+        raise AnalysisError('write_line_break: expected (self, data=None)')
+    # (a) called without an argument, write_line_break writes best_line_break: reaching definitions of what is written,
+    #     along the edges that are feasible when the parameter is None on entry
+    P = wlb.params[1]
+    cfg = CFG(wlb.node)
+
+    def decide(n, flow):
+        t = n.ast
+        if isinstance(t, ast.Compare) and len(t.ops) == 1 and isinstance(t.left, ast.Name) and t.left.id == P \
+                and isinstance(t.comparators[0], ast.Constant) and t.comparators[0].value is None \
+                and flow.defs(n, P) == frozenset([Flow.ENTRY]):
+            return isinstance(t.ops[0], (ast.Is, ast.Eq))
+        if isinstance(t, ast.Name) and t.id == P and flow.defs(n, P) == frozenset([Flow.ENTRY]):
+            return False
+        return None
+    flow = Flow(cfg, wlb.params, decide)
+    writes = [(n, c) for n in cfg.nodes if n.ast is not None for c in own_exprs(n)
+              if isinstance(c, ast.Call) and norm(c.func) == 'self.stream.write' and c.args and flow.reached(n)]
+    if not writes:
+        raise AnalysisError('write_line_break does not write to the stream')
+    org = set()
+    for n, c in writes:
+        org |= _origins(flow, n, c.args[0])
+    if org == {('attr', 'self.best_line_break')}:
         rule.ok(wlb.loc(), 'write_line_break() defaults to best_line_break')
     else:
         rule.fail('%s|default' % wlb.qualname, wlb.module.rel, wlb.node.lineno, wlb.qualname, 'def write_line_break',
                   'write_line_break no longer defaults to the requested line_break')
-    n = 0
+    # (b) every other place that hands a value to write_line_break or to the stream: a character of the text only when LF
+    #     is excluded on the way, a constant only without CR/LF
+    n_sites = 0
     for f in E.methods.values():
-        for c in A.func_calls(f.node):
-            if norm(c.func) == 'self.write_line_break' and (c.args or c.keywords):
-                n += 1
-                a = c.args[0] if c.args else c.keywords[0].value
-                conds = RE._path_condition(c, f.node)
-                at = norm(a)
-                excluded = any((norm(t) == "%s == '\\n'" % at and pol is False) or
-                               (norm(t) == "%s != '\\n'" % at and pol is True) for t, pol in conds)
-                cs = A.const_str(a)
-                if cs is not None and not (set(cs) & set('\r\n')):
-                    excluded = True
-                if excluded:
-                    rule.ok(f.loc(c), 'write_line_break(%s) only for %s != LF' % (at, at))
-                else:
-                    rule.fail('%s|explicit-break|%s' % (f.qualname, at), f.module.rel, c.lineno, f.qualname, norm(c),
-                              'write_line_break is given the text\'s own break character without excluding LF: a newline inside a '
-                              'scalar is written as bare LF whatever line_break was requested')
-    # string constants containing CR/LF written directly
-    for f in E.methods.values():
-        if f.name == 'write_line_break':
+        calls = [c for c in A.func_calls(f.node)
+                 if (norm(c.func) == 'self.write_line_break' and (c.args or c.keywords))
+                 or (norm(c.func) == 'self.stream.write' and c.args and f is not wlb)]
+        if not calls:
             continue
-        for c in A.func_calls(f.node):
-            if norm(c.func) == 'self.stream.write' and c.args:
-                a = c.args[0]
-                defs = [a]
-                if isinstance(a, ast.Name):
-                    defs = [x.value for x in walk_function(f.node) if isinstance(x, ast.Assign)
-                            and any(isinstance(t, ast.Name) and t.id == a.id for t in x.targets)]
-                for d in defs:
-                    for k in ast.walk(d):
-                        s = A.const_str(k) if isinstance(k, ast.Constant) else None
-                        if s is not None and (set(s) & set('\r\n')):
-                            rule.fail('%s|raw-break' % f.qualname, f.module.rel, c.lineno, f.qualname, norm(d)[:60],
-                                      'a string constant containing CR/LF is written to the stream outside write_line_break')
-    if n < 4:
-        raise AnalysisError('R-BREAK-FUNNEL: only %d explicit write_line_break calls found (4 confirmed)' % n)
+        S = Scenario(repo, f)
+        for c in calls:
+            explicit = norm(c.func) == 'self.write_line_break'
+            a = c.args[0] if c.args else c.keywords[0].value
+            nodes = S.nodes_of_stmt(c)
+            if not nodes:
+                raise AnalysisError('%s: %s is not a statement of the function' % (f.qualname, norm(c)[:40]))
+            org = set()
+            for n in nodes:
+                org |= _origins(S.flow, n, a)
+            consts = [o[1] for o in org if o[0] == 'const']
+            chars = sorted(o[1] for o in org if o[0] == 'charvar')
+            if explicit and isinstance(a, ast.Name) and a.id not in chars and any(o[0] in ('param', 'other') for o in org):
+                chars.append(a.id)
+            why = None
+            if any(_has_break(s) for s in consts):
+                why = 'raw'
+            for v in chars:
+                r = S.reach(env={v: '\n'})
+                if any(n in r for n in nodes):
+                    why = 'lf'
+            if explicit and not chars and not consts and why is None:
+                why = 'lf'          # an expression we cannot follow is handed over as the break
+            if explicit or chars:
+                n_sites += 1
+            if why == 'raw':
+                if explicit:
+                    rule.fail('%s|explicit-break|const' % f.qualname, f.module.rel, c.lineno, f.qualname, norm(c),
+                              'write_line_break is given a constant containing CR/LF: that break is written whatever line_break '
+                              'was requested')
+                else:
+                    rule.fail('%s|raw-break' % f.qualname, f.module.rel, c.lineno, f.qualname, norm(c)[:60],
+                              'a string constant containing CR/LF is written to the stream outside write_line_break')
+            elif why == 'lf':
+                rule.fail('%s|explicit-break|%d' % (f.qualname, [x for x in calls if norm(x.func) == norm(c.func)].index(c)),
+                          f.module.rel, c.lineno, f.qualname, norm(c),
+                          'write_line_break is given the text\'s own break character without excluding LF: a newline inside a '
+                          'scalar is written as bare LF whatever line_break was requested')
+            elif explicit or chars:
+                rule.ok(f.loc(c), 'a break character of the text is written only when it is not LF')
+    if n_sites < 2:
+        raise AnalysisError('R-BREAK-FUNNEL: only %d places found where a break character of the text is written (5 confirmed)' % n_sites)
     return rule
+
+
+def _is_self_encoding(e):
+    return isinstance(e, ast.Attribute) and e.attr == 'encoding' and norm(e.value) == 'self'
 
 
 def r_encode_before_write(ctx, repo):
-    rule = ctx.rule('R-ENCODE-BEFORE-WRITE', 'every self.stream.write(x) is immediately preceded by `if self.encoding: x = '
-                                             'x.encode(self.encoding)` (or is the BOM, encoded under a test of self.encoding)')
+    rule = ctx.rule('R-ENCODE-BEFORE-WRITE', 'whatever reaches self.stream.write(x) has been encoded with self.encoding when an '
+                                             'encoding is set, and has not been encoded when none is set (reaching definitions '
+                                             'along the edges feasible for each value of self.encoding)')
     E = repo.cls('emitter.Emitter')
     n = 0
     for f in E.methods.values():
-        for c in A.func_calls(f.node):
-            if norm(c.func) != 'self.stream.write':
-                continue
+        sites = [c for c in A.func_calls(f.node) if norm(c.func) == 'self.stream.write']
+        if not sites:
+            continue
+        cfg = CFG(f.node)
+        plain = Flow(cfg, f.params)
+
+        def flow_for(value):
+            def decide(node, fl):
+                e = RE.subst(plain.deref(node, node.ast), {'self.encoding': value})
+                if e is node.ast:
+                    return None
+                return CW.eval_cond(repo, e, {})
+            return Flow(cfg, f.params, decide)
+        flows = [(enc, flow_for(enc)) for enc in ('utf-8', 'utf-16-le', None)]
+        for idx, c in enumerate(sites):
             n += 1
-            st = A.enclosing_stmt(c)
+            nodes = [x for x in cfg.nodes if x.ast is not None and any(y is c for y in own_exprs(x))]
             a = c.args[0] if c.args else None
-            ok = False
-            if isinstance(a, ast.Name):
-                par = getattr(st, '_parent', None)
-                body = None
-                for fld in ('body', 'orelse', 'finalbody'):
-                    b = getattr(par, fld, None)
-                    if isinstance(b, list) and st in b:
-                        body = b
-                if body is not None:
-                    i = body.index(st)
-                    if i > 0 and isinstance(body[i - 1], ast.If) and norm(body[i - 1].test) == 'self.encoding' \
-                            and len(body[i - 1].body) == 1 and not body[i - 1].orelse \
-                            and norm(body[i - 1].body[0]) == '%s = %s.encode(self.encoding)' % (a.id, a.id):
-                        ok = True
-            elif isinstance(a, ast.Call) and isinstance(a.func, ast.Attribute) and a.func.attr == 'encode' \
-                    and a.args and norm(a.args[0]) == 'self.encoding':
-                conds = RE._path_condition(c, f.node)
-                if any('self.encoding' in norm(t) and pol for t, pol in conds):
-                    ok = True
+            ok = a is not None and bool(nodes)
+            seen_any = False
+            for enc, fl in flows:
+                for x in nodes:
+                    if not fl.reached(x):
+                        continue
+                    seen_any = True
+                    if isinstance(a, ast.Name):
+                        ds = fl.defs(x, a.id)
+                        vals = [Flow.value_of(d) if d != Flow.ENTRY else None for d in ds]
+                        encoded = [v is not None and RE._is_encode_call(v) and len(v.args) >= 1 and _is_self_encoding(v.args[0])
+                                   for v in vals]
+                        any_encode = [v is not None and RE._is_encode_call(v) for v in vals]
+                        if enc is not None and not (vals and all(encoded)):
+                            ok = False
+                        if enc is None and any(any_encode):
+                            ok = False
+                    elif RE._is_encode_call(a) and a.args and _is_self_encoding(a.args[0]):
+                        if enc is None:
+                            ok = False
+                    else:
+                        ok = False
+            if not seen_any:
+                ok = False
             if ok:
-                rule.ok(f.loc(c), 'write in %s encodes when an encoding is set' % f.name)
+                rule.ok(f.loc(c), 'write in %s encodes exactly when an encoding is set' % f.name)
             else:
-                rule.fail('%s|%d' % (f.qualname, [x for x in A.func_calls(f.node) if norm(x.func) == 'self.stream.write'].index(c)),
-                          f.module.rel, c.lineno, f.qualname, norm(st)[:70],
-                          'data is written to the stream without the `if self.encoding: data = data.encode(...)` step: a '
-                          'binary stream receives str (or the requested encoding is ignored for this piece of output)')
-    rule.require_min(19, 'stream.write sites')
+                rule.fail('%s|%d' % (f.qualname, idx), f.module.rel, c.lineno, f.qualname, norm(A.enclosing_stmt(c))[:70],
+                          'data is written to the stream without the `if self.encoding: data = data.encode(self.encoding)` step: '
+                          'a binary stream receives str (or the requested encoding is ignored for this piece of output)')
+    rule.require_min(9, 'stream.write sites')
     return rule
+
+
+def _io_kind(e):
+    """'StringIO' / 'BytesIO' when the expression creates that in-memory stream."""
+    if isinstance(e, ast.Call) and not e.args and not e.keywords:
+        t = norm(e.func)
+        for k in ('StringIO', 'BytesIO'):
+            if t in (k, 'io.' + k):
+                return k
+    return None
+
+
+def _stream_selection(repo, rule, f):
+    """the str / bytes result clause for one API function, explored per scenario (stream given or None, encoding given or
+    None) on the CFG with reaching definitions."""
+    call = _dumper_call(f)
+    if not call.args or not isinstance(call.args[0], ast.Name):
+        raise AnalysisError('yaml.%s: the dumper is not given the stream as its first argument' % f.name)
+    sname = f.params[1]
+    ename = 'encoding' if 'encoding' in f.params else None
+    cfg = CFG(f.node)
+    problems = []
+
+    for s_none in (True, False):
+        for e_none in ((True, False) if ename else (True,)):
+            given = {sname: s_none}
+            if ename:
+                given[ename] = e_none
+
+            def noneness(node, e, fl, depth=0):
+                """True: is None; False: an object; None: unknown"""
+                if isinstance(e, ast.Constant):
+                    return e.value is None
+                if _io_kind(e):
+                    return False
+                if isinstance(e, ast.Attribute) and isinstance(e.value, ast.Name):
+                    # a bound method of an in-memory stream (stream.getvalue) is an object
+                    base = [Flow.value_of(d) if d != Flow.ENTRY else None for d in fl.defs(node, e.value.id)]
+                    if base and all(v is not None and _io_kind(v) for v in base):
+                        return False
+                    return None
+                if isinstance(e, ast.Name) and depth < 4:
+                    res = set()
+                    for d in fl.defs(node, e.id):
+                        if d == Flow.ENTRY:
+                            res.add(given.get(e.id))
+                        else:
+                            v = Flow.value_of(d)
+                            res.add(None if v is None else noneness(d, v, fl, depth + 1))
+                    if len(res) == 1:
+                        return next(iter(res))
+                return None
+
+            def decide(node, fl):
+                t = node.ast
+                if isinstance(t, ast.Compare) and len(t.ops) == 1 and isinstance(t.ops[0], (ast.Is, ast.IsNot, ast.Eq, ast.NotEq)):
+                    l, r = t.left, t.comparators[0]
+                    if isinstance(l, ast.Constant) and l.value is None:
+                        l, r = r, l
+                    if isinstance(r, ast.Constant) and r.value is None:
+                        v = noneness(node, l, fl)
+                        if v is None:
+                            return None
+                        return v if isinstance(t.ops[0], (ast.Is, ast.Eq)) else (not v)
+                    return None
+                v = noneness(node, t, fl)
+                return None if v is None else (not v)
+            fl = Flow(cfg, f.params, decide)
+            what = 'stream %s, encoding %s' % ('None' if s_none else 'given', 'None' if e_none else 'given')
+            cnodes = [x for x in cfg.nodes if x.ast is not None and fl.reached(x) and any(y is call for y in own_exprs(x))]
+            if not cnodes:
+                raise AnalysisError('yaml.%s: the dumper instantiation is not reached with %s' % (f.name, what))
+            for x in cnodes:
+                ds = fl.defs(x, call.args[0].id)
+                kinds = {('param' if d == Flow.ENTRY else _io_kind(Flow.value_of(d)) if Flow.value_of(d) is not None else None)
+                         for d in ds}
+                want = {'param'} if not s_none else {'StringIO' if e_none else 'BytesIO'}
+                if kinds != want:
+                    problems.append('with %s the dumper writes to %s instead of %s'
+                                    % (what, '/'.join(sorted(str(k) for k in kinds)) or 'nothing', '/'.join(sorted(want))))
+            # the result
+            rets = [x for x in cfg.nodes if x.kind == 'return' and fl.reached(x) and x.ast.value is not None
+                    and not (isinstance(x.ast.value, ast.Constant) and x.ast.value.value is None)]
+            falls = fl.reached(cfg.exit_fall) or any(x.kind == 'return' and fl.reached(x) and x not in rets for x in cfg.nodes)
+            if s_none:
+                if falls:
+                    problems.append('with %s the function can complete without returning the produced text' % what)
+                for x in rets:
+                    v = x.ast.value
+                    good = False
+                    if isinstance(v, ast.Call) and not v.args and not v.keywords:
+                        g = v.func
+                        targets = []
+                        if isinstance(g, ast.Attribute) and g.attr == 'getvalue' and isinstance(g.value, ast.Name):
+                            targets = [(x, g.value.id)]
+                        elif isinstance(g, ast.Name):
+                            gd = fl.defs(x, g.id)
+                            vals = [Flow.value_of(d) if d != Flow.ENTRY else None for d in gd]
+                            if vals and all(isinstance(w, ast.Attribute) and w.attr == 'getvalue' and isinstance(w.value, ast.Name)
+                                            for w in vals):
+                                targets = [(d, Flow.value_of(d).value.id) for d in gd]
+                        if targets:
+                            good = True
+                            for at, nm in targets:
+                                srcs = [Flow.value_of(d) if d != Flow.ENTRY else None for d in fl.defs(at, nm)]
+                                if not srcs or not all(w is not None and _io_kind(w) == ('StringIO' if e_none else 'BytesIO')
+                                                       for w in srcs):
+                                    good = False
+                    if not good:
+                        problems.append('with %s the function returns %s, not the getvalue() of the stream it created'
+                                        % (what, norm(v)[:40]))
+            elif rets:
+                problems.append('with %s the function returns %s instead of None' % (what, norm(rets[0].ast.value)[:40]))
+    return problems
 
 
 def r_stream_selection(ctx, repo):
@@ -305,41 +576,67 @@ def r_stream_selection(ctx, repo):
                                           'return its getvalue(); emit uses StringIO; the BOM is written iff the encoding is UTF-16; the '
                                           'event\'s encoding is taken only when the stream has no encoding attribute')
     init = repo.modules['__init__']
-    for name in ('serialize_all', 'dump_all'):
-        f = init.functions[name]
-        ok = False
-        for n in walk_function(f.node):
-            if isinstance(n, ast.If) and norm(n.test) == 'stream is None':
-                inner = [s for s in n.body if isinstance(s, ast.If)]
-                if inner and norm(inner[0].test) == 'encoding is None' and 'io.StringIO()' in norm(inner[0].body) \
-                        and 'io.BytesIO()' in norm(inner[0].orelse) and 'getvalue = stream.getvalue' in norm(n.body):
-                    ok = True
-        rets = [r for r in walk_function(f.node) if isinstance(r, ast.Return)]
-        if ok and rets and all(norm(r.value) == 'getvalue()' for r in rets):
-            rule.ok(f.loc(), 'yaml.%s: str for no encoding, bytes otherwise' % name)
+    for name in ('serialize_all', 'dump_all', 'emit'):
+        f = init.functions.get(name)
+        if f is None:
+            raise AnalysisError('yaml.%s has vanished' % name)
+        problems = _stream_selection(repo, rule, f)
+        if not problems:
+            rule.ok(f.loc(), 'yaml.%s: str for no encoding, bytes otherwise, None for a given stream' % name if name != 'emit'
+                    else 'yaml.emit returns str')
         else:
             rule.fail('%s|selection' % f.qualname, f.module.rel, f.node.lineno, f.qualname, 'if stream is None',
-                      'yaml.%s does not choose StringIO for encoding=None / BytesIO otherwise, or does not return getvalue()' % name)
-    f = init.functions['emit']
-    if 'io.StringIO()' in norm(f.node) and 'BytesIO' not in norm(f.node):
-        rule.ok(f.loc(), 'yaml.emit returns str')
-    else:
-        rule.fail('%s|selection' % f.qualname, f.module.rel, f.node.lineno, f.qualname, 'io.StringIO()', 'yaml.emit no longer uses StringIO')
+                      'yaml.%s does not choose StringIO for encoding=None / BytesIO otherwise, or does not return getvalue(): %s'
+                      % (name, '; '.join(problems[:3])))
     E = repo.cls('emitter.Emitter')
-    f = E.methods['write_stream_start']
-    t = norm(f.node)
-    if "self.encoding and self.encoding.startswith('utf-16')" in t and "'\\ufeff'.encode(self.encoding)" in t:
+    # the byte order mark is written exactly for the UTF-16 encodings the emitter is given
+    f = E.methods.get('write_stream_start')
+    if f is None:
+        raise AnalysisError('Emitter.write_stream_start has vanished')
+    S = Scenario(repo, f)
+    bom = [n for n in S.cfg.nodes if n.ast is not None and any(isinstance(x, ast.Constant) and x.value == '\ufeff' for x in own_exprs(n))]
+    if not bom:
+        raise AnalysisError('write_stream_start: the byte order mark is not written')
+    wrong = []
+    for enc in (None, 'utf-8', 'utf-16-le', 'utf-16-be'):
+        r = S.reach(table={'self.encoding': enc})
+        written = any(n in r for n in bom)
+        if written != bool(enc and enc.startswith('utf-16')):
+            wrong.append(enc)
+    if not wrong:
         rule.ok(f.loc(), 'BOM iff UTF-16')
     else:
         rule.fail('%s|bom' % f.qualname, f.module.rel, f.node.lineno, f.qualname, 'write_stream_start',
-                  'the byte order mark is not written exactly for the UTF-16 encodings')
-    f = E.methods['expect_stream_start']
-    t = norm(f.node)
-    if "self.event.encoding and (not hasattr(self.stream, 'encoding'))" in t and 'self.encoding = self.event.encoding' in t:
+                  'the byte order mark is not written exactly for the UTF-16 encodings (wrong for encoding=%s)'
+                  % ', '.join(repr(e) for e in wrong))
+    # the encoding requested by the event is adopted exactly when the stream has no encoding attribute of its own
+    f = E.methods.get('expect_stream_start')
+    if f is None:
+        raise AnalysisError('Emitter.expect_stream_start has vanished')
+    S = Scenario(repo, f)
+    adopt = [n for n in S.cfg.nodes if isinstance(n.ast, ast.Assign) and any(_is_self_encoding(t) for t in n.ast.targets)]
+    if not adopt:
+        raise AnalysisError('expect_stream_start: self.encoding is never set')
+    wrong = []
+    for ev_enc in (None, 'utf-8'):
+        for has in (True, False):
+            def hook(e, has=has):
+                inner, pos = A.strip_not(e)
+                if isinstance(inner, ast.Call) and norm(inner.func) == 'hasattr' and len(inner.args) == 2 \
+                        and norm(inner.args[0]) == 'self.stream' and A.const_str(inner.args[1]) == 'encoding':
+                    return has if pos else (not has)
+                return None
+            r = S.reach(table={'self.event.encoding': ev_enc}, hook=hook)
+            reached = [n for n in adopt if n in r]
+            from_event = all(norm(S.flow.deref(n, n.ast.value)) == 'self.event.encoding' for n in reached)
+            if bool(reached) != bool(ev_enc and not has) or not from_event:
+                wrong.append('event encoding %r, stream %s an encoding attribute' % (ev_enc, 'with' if has else 'without'))
+    if not wrong:
         rule.ok(f.loc(), 'event encoding used only for streams without their own encoding')
     else:
         rule.fail('%s|encoding' % f.qualname, f.module.rel, f.node.lineno, f.qualname, 'expect_stream_start',
-                  'the stream start no longer takes the requested encoding exactly when the stream has no encoding attribute')
+                  'the stream start no longer takes the requested encoding exactly when the stream has no encoding attribute '
+                  '(wrong for: %s)' % '; '.join(wrong[:2]))
     return rule
 
 
@@ -348,14 +645,21 @@ def r_directives_from_options(ctx, repo):
                                                  'DocumentEnd from use_explicit_end for every document')
     S = repo.cls('serializer.Serializer')
     f = S.methods.get('serialize')
+    if f is None:
+        raise AnalysisError('Serializer.serialize has vanished')
+    sc = Scenario(repo, f)
+
+    def kwtexts(c):
+        nodes = sc.nodes_of_stmt(c)
+        return {k.arg: norm(sc.flow.deref(nodes[0], k.value)) if nodes else norm(k.value) for k in c.keywords}
     ok1 = ok2 = False
     for c in A.func_calls(f.node):
         if norm(c.func) == 'DocumentStartEvent':
-            kw = {k.arg: norm(k.value) for k in c.keywords}
+            kw = kwtexts(c)
             ok1 = kw.get('explicit') == 'self.use_explicit_start' and kw.get('version') == 'self.use_version' \
                 and kw.get('tags') == 'self.use_tags'
         if norm(c.func) == 'DocumentEndEvent':
-            kw = {k.arg: norm(k.value) for k in c.keywords}
+            kw = kwtexts(c)
             ok2 = kw.get('explicit') == 'self.use_explicit_end'
     if ok1 and ok2:
         rule.ok(f.loc(), 'Serializer.serialize: document events carry the options')
@@ -365,67 +669,165 @@ def r_directives_from_options(ctx, repo):
                   'explicit_end for each document')
     C = repo.cls('_yaml.CEmitter')
     g = C.methods.get('serialize')
-    t = norm(g.node)
-    need = ['self.use_version', 'self.use_tags', 'self.document_start_implicit', 'self.document_end_implicit']
-    if all(x in t for x in need):
+    if g is None:
+        raise AnalysisError('CEmitter.serialize has vanished')
+    reads = {x.attr for x in walk_function(g.node) if isinstance(x, ast.Attribute) and norm(x.value) == 'self'}
+    need = ['use_version', 'use_tags', 'document_start_implicit', 'document_end_implicit']
+    if all(x in reads for x in need):
         rule.ok(g.loc(), 'CEmitter.serialize uses version/tags/explicit flags per document')
     else:
         rule.fail('%s|events' % g.qualname, g.module.rel, g.node.lineno, g.qualname, 'serialize',
                   'CEmitter.serialize no longer builds each document start/end from the options')
     ci = C.methods.get('__init__')
-    t = norm(ci.node)
+    if ci is None:
+        raise AnalysisError('CEmitter.__init__ has vanished')
+    I = Scenario(repo, ci)
     pairs = [('canonical', 'yaml_emitter_set_canonical'), ('indent', 'yaml_emitter_set_indent'), ('width', 'yaml_emitter_set_width'),
              ('allow_unicode', 'yaml_emitter_set_unicode'), ('line_break', 'yaml_emitter_set_break')]
     for opt, fn in pairs:
         calls = [c for c in A.func_calls(ci.node) if norm(c.func) == fn]
-        good = bool(calls)
+        good = bool(calls) and opt in ci.params
+        # every path to the setter passes a test of the option
+        tests = [n for n in I.cfg.nodes if n.kind == 'test' and n.ast is not None
+                 and any(isinstance(x, ast.Name) and x.id == opt for x in ast.walk(n.ast))]
         for c in calls:
-            conds = RE._path_condition(c, ci.node)
-            if not any(opt in norm(tt) for tt, pol in conds):
+            nodes = I.nodes_of_stmt(c)
+            if not nodes or not tests or not all(I.cfg.guarded(x, nodes=tests) for x in nodes):
                 good = False
-            if opt in ('indent', 'width') and not (len(c.args) >= 2 and norm(c.args[1]) == opt):
+            if opt in ('indent', 'width') and not (len(c.args) >= 2 and isinstance(c.args[1], ast.Name) and c.args[1].id == opt):
                 good = False
         if good:
             rule.ok(ci.loc(), 'CEmitter: %s -> %s' % (opt, fn))
         else:
             rule.fail('%s|%s' % (ci.qualname, opt), ci.module.rel, ci.node.lineno, ci.qualname, fn,
                       'CEmitter.__init__ does not map the option %s onto %s' % (opt, fn))
-    for lit, const in (('\\r', 'YAML_CR_BREAK'), ('\\n', 'YAML_LN_BREAK'), ('\\r\\n', 'YAML_CRLN_BREAK')):
-        found = False
-        for n in walk_function(ci.node):
-            if isinstance(n, ast.If) and norm(n.test) == "line_break == '%s'" % lit and const in norm(n.body):
-                found = True
-        if found:
-            rule.ok(ci.loc(), 'line_break %s -> %s' % (lit, const))
+    # line_break value -> libyaml constant: with line_break fixed, exactly the matching constant is handed over
+    consts = (('\r', 'YAML_CR_BREAK'), ('\n', 'YAML_LN_BREAK'), ('\r\n', 'YAML_CRLN_BREAK'))
+    where = {const: [n for n in I.cfg.nodes if n.ast is not None
+                     and any(isinstance(x, ast.Name) and x.id == const for x in own_exprs(n))] for lit, const in consts}
+    for lit, const in consts:
+        r = I.reach(env={'line_break': lit}, must_decide=['line_break'], what=' for line_break=%r' % lit)
+        found = any(n in r for n in where[const])
+        others = [k for l2, k in consts if k != const and any(n in r for n in where[k])]
+        if found and not others:
+            rule.ok(ci.loc(), 'line_break %r -> %s' % (lit, const))
         else:
             rule.fail('%s|break|%s' % (ci.qualname, const), ci.module.rel, ci.node.lineno, ci.qualname, const,
-                      'CEmitter.__init__ does not map line_break %s onto %s' % (lit, const))
+                      'CEmitter.__init__ does not map line_break %r onto %s' % (lit, const))
     return rule
+
+
+def _scalar_flag_roles(f):
+    """(locals that hold the four style permissions that only double quotes survive, the names of the flags that knock them
+    out) in analyze_scalar: found through the keywords of the ScalarAnalysis(...) it returns, not through local names."""
+    perms = None
+    for n in walk_function(f.node):
+        if isinstance(n, ast.Call) and norm(n.func) == 'ScalarAnalysis':
+            kw = {k.arg: k.value for k in n.keywords}
+            want = ('allow_flow_plain', 'allow_block_plain', 'allow_single_quoted', 'allow_block')
+            if all(isinstance(kw.get(w), ast.Name) for w in want):
+                perms = {kw[w].id for w in want}
+    if perms is None:
+        raise AnalysisError('analyze_scalar: the ScalarAnalysis(...) built from the style permissions was not found')
+    flags = set()
+    for n in walk_function(f.node):
+        if not isinstance(n, ast.If):
+            continue
+        falsified = set()
+        for s in n.body:
+            if isinstance(s, ast.Assign) and isinstance(s.value, ast.Constant) and s.value.value is False:
+                falsified |= {x.id for t in s.targets for x in ast.walk(t) if isinstance(x, ast.Name)}
+        if perms <= falsified:
+            t = n.test
+            parts = t.values if isinstance(t, ast.BoolOp) and isinstance(t.op, ast.Or) else [t]
+            flags |= {p.id for p in parts if isinstance(p, ast.Name)}
+    if not flags:
+        raise AnalysisError('analyze_scalar: no flag restricts the scalar to the double-quoted style')
+    return perms, flags
 
 
 def r_ascii_unless_unicode(ctx, repo):
     """characters written raw by the tag/anchor preparers are ASCII (they are not subject to allow_unicode)."""
     rule = ctx.rule('R-ASCII-RAW', 'every character the tag / tag-prefix / handle / anchor writers emit unescaped is printable ASCII; '
-                                   'the scalar analysis marks every non-ASCII character as special unless allow_unicode')
+                                   'the scalar analysis marks every character outside printable ASCII / LF as special (double '
+                                   'quotes only) unless allow_unicode')
     E = repo.cls('emitter.Emitter')
     probes = sorted(set(CW.representative_chars(repo, 'emitter')) | set('é一Ａ５²ǅ\xaa\xb5\U0001F600\x7f\x80'))
     for en in ('prepare_tag', 'prepare_tag_prefix', 'prepare_tag_handle', 'prepare_anchor'):
         f = E.methods.get(en)
+        if f is None:
+            raise AnalysisError('Emitter.%s has vanished' % en)
         ec = RE.CharClass(repo, f)
-        bad = [c for c in probes if ec.passes(c) is not False and not (0x20 <= ord(c) <= 0x7e)]
+        passed = [c for c in probes if ec.passes(c) is not False]
+        if not passed:
+            raise AnalysisError('%s: no probe character is written unescaped (the character test is not understood)' % en)
+        bad = [c for c in passed if not (0x20 <= ord(c) <= 0x7e)]
         if bad:
             rule.fail('%s|non-ascii|%s' % (en, ''.join(bad[:6])), f.module.rel, ec.node.lineno, f.qualname, ec.text[:90],
                       '%s writes %s unescaped: output produced without allow_unicode contains non-ASCII characters'
                       % (en, ', '.join(repr(c) for c in bad[:6])))
         else:
             rule.ok(f.loc(ec.node), '%s: raw characters are printable ASCII' % en)
-    # analyze_scalar: non-ASCII => special_characters unless allow_unicode
+    # analyze_scalar: for every character outside printable ASCII / LF, each pass through the per-character loop with
+    # allow_unicode off sets a flag that leaves only the double-quoted style
     f = E.methods.get('analyze_scalar')
-    t = norm(f.node)
-    if "if not self.allow_unicode:\n                    special_characters = True" in t.replace('    ' * 0, '') or \
-            ('if not self.allow_unicode:' in t and 'special_characters = True' in t):
-        rule.ok(f.loc(), 'analyze_scalar: non-ASCII forces escaping unless allow_unicode')
+    if f is None:
+        raise AnalysisError('Emitter.analyze_scalar has vanished')
+    perms, flags = _scalar_flag_roles(f)
+    S = Scenario(repo, f)
+    cfg = S.cfg
+    raising = [n for n in cfg.nodes if isinstance(n.ast, ast.Assign) and isinstance(n.ast.value, ast.Constant)
+               and n.ast.value.value is True and any(isinstance(t, ast.Name) and t.id in flags for t in n.ast.targets)]
+    if not raising:
+        raise AnalysisError('analyze_scalar: the double-quotes-only flag is never raised')
+    loops = [l for l in RE.preorder_stmts(f.node) if isinstance(l, (ast.While, ast.For))
+             and any(r.ast is x for r in raising for x in ast.walk(l))]
+    if not loops:
+        raise AnalysisError('analyze_scalar: the flag is not raised inside the per-character loop')
+    loop = loops[0]
+    lowered = [n for n in cfg.nodes if isinstance(n.ast, ast.Assign) and any(n.ast is x for x in ast.walk(loop))
+               and any(isinstance(t, ast.Name) and t.id in flags for t in n.ast.targets) and n not in raising]
+    if lowered:
+        raise AnalysisError('analyze_scalar: a double-quotes-only flag is reset inside the loop')
+    # the character variable(s): bound inside the loop to one character of the scalar
+    text = f.params[1] if len(f.params) > 1 else None
+    cvars = set()
+    if isinstance(loop, ast.For):
+        cvars |= {x.id for x in ast.walk(loop.target) if isinstance(x, ast.Name)}
+    for x in ast.walk(loop):
+        if isinstance(x, ast.Assign) and len(x.targets) == 1 and isinstance(x.targets[0], ast.Name) \
+                and isinstance(x.value, ast.Subscript) and not isinstance(x.value.slice, ast.Slice) \
+                and isinstance(x.value.value, ast.Name) and x.value.value.id == text:
+            cvars.add(x.targets[0].id)
+    if not cvars:
+        raise AnalysisError('analyze_scalar: no variable holds the current character of the scalar')
+    head = cfg.entry_of(loop) if isinstance(loop, ast.While) else None
+    if isinstance(loop, ast.For):
+        fn = [n for n in cfg.nodes if n.kind == 'for' and n.stmt is loop]
+        head = fn[0] if fn else None
+    if head is None:
+        raise AnalysisError('analyze_scalar: loop head not found')
+    body_entry = [m for n in cfg.nodes if n.stmt is loop and n.kind in ('test', 'for') for (m, lab) in cfg.succ[n] if lab is True]
+    if not body_entry:
+        raise AnalysisError('analyze_scalar: loop body not found')
+    escaping = []
+    n_special = 0
+    for c in probes:
+        if c == '\n' or 0x20 <= ord(c) <= 0x7e:
+            continue
+        r = S.reach(env={v: c for v in cvars}, table={'self.allow_unicode': False}, blocked=raising, starts=body_entry,
+                    must_decide=cvars, what=' for %r' % c)
+        # the iteration can come round to the loop head (or leave the function) without having raised the flag
+        if head in r or any(x in r for x in cfg.normal_exits()):
+            escaping.append(c)
+        else:
+            n_special += 1
+    if escaping:
+        rule.fail('%s|special' % f.qualname, f.module.rel, loop.lineno, f.qualname, 'special characters',
+                  'analyze_scalar does not treat %s as special when allow_unicode is off: such a scalar may be written plain / '
+                  'quoted / as a block with the character unescaped, so the output is not ASCII'
+                  % ', '.join(repr(c) for c in escaping[:6]))
     else:
-        rule.fail('%s|special' % f.qualname, f.module.rel, f.node.lineno, f.qualname, 'special_characters',
-                  'analyze_scalar no longer treats non-ASCII characters as special when allow_unicode is off')
+        rule.ok(f.loc(loop), 'analyze_scalar: %d probe characters outside printable ASCII force double quotes unless allow_unicode'
+                % n_special)
     return rule
